@@ -59,6 +59,9 @@ class CallMixin(ExprMixin):
         if isinstance(e.func, ast.Name) and e.func.id == "super" and not e.args:
             self_v = self.lookup_name(self.first_param_name(ctx.func), st, ctx)
             return [(st, SuperVal(self_v, ctx.func.cls))]
+        if isinstance(e.func, ast.Name) and e.func.id == "cast" and len(e.args) == 2 and not e.keywords \
+                and isinstance(self.lookup_name("cast", st, ctx), Builtin):
+            return self.eval_expr(e.args[1], st, ctx)  # typing.cast(T, v): the type expression is not evaluated
         arg_exprs: list[ast.expr] = []
         layout: list[tuple[str, Any]] = []
         for a in e.args:
@@ -376,11 +379,10 @@ class CallMixin(ExprMixin):
             rel, _, cn = t[9:].rpartition(":")
             return ClassVal(self.P.by_relpath[rel].classes[cn])
         if t.startswith("excany:"):
-            from .interp import EXC_REPRESENTATIVES
             base = self.class_by_name(t[7:])
-            cands = [PyClass(k) for k in EXC_REPRESENTATIVES if self.is_subclass(PyClass(k), base)]
+            cands = self.representatives(base)
             extra = [self.class_by_name(n) for n in ("StreamProtocolParseError",) if self.is_subclass(self.class_by_name(n), base)]
-            return self.make_exc_any(st, extra + cands)
+            return self.make_exc_any(st, [x for x in extra if x not in cands] + cands)
         if t.startswith("exc:"):
             cls = self.class_by_name(t[4:])
             return self.make_exc(st, cls, ())
@@ -490,6 +492,10 @@ class CallMixin(ExprMixin):
                 fr = st.heap[fr.oid].get("$parent")
             if fr is None:
                 raise EngineError(f"rely/modifies: variable {name} not found")
+            lt = self.top_ctx.contract.locals_types if self.top_ctx is not None and self.top_ctx.contract is not None else {}
+            if name in lt and (st.heap[fr.oid][name] is None or isinstance(st.heap[fr.oid][name], (Opt, Ref))):
+                st.heap[fr.oid][name] = self.make_symbolic(st, lt[name], name)
+                return
             st.heap[fr.oid][name] = self.havoc_like(st, st.heap[fr.oid][name], name, path)
             return
         node = ast.parse(path.strip(), mode="eval").body
@@ -724,8 +730,7 @@ class CallMixin(ExprMixin):
             classes = [self.class_by_name(cname)]
             if c.env.get("raise_any") == cname or cname in ("BaseException", "Exception", "OSError"):
                 # "may raise any exception below cname": one path per representative class
-                from .interp import EXC_REPRESENTATIVES
-                classes = [PyClass(k) for k in EXC_REPRESENTATIVES if self.is_subclass(PyClass(k), classes[0])]
+                classes = self.representatives(classes[0])
             if classes:
                 s2 = st.clone()
                 exc = self.make_exc_any(s2, classes)
